@@ -1,6 +1,6 @@
 import TantivyModel.Proofs.Columnar.Mapping
 import TantivyModel.Proofs.Columnar.Range
-import TantivyModel.Proofs.Columnar.Merge
+import TantivyModel.Proofs.Columnar.Stack
 import TantivyModel.Proofs.Columnar.OptionalIndex
 /-!
 # C08 — Fast fields return exactly the values that were indexed
@@ -233,29 +233,14 @@ example : read (mergeShuffled [(0, 1), (1, 0), (0, 0)]
       [⟨2, some (encodeAs .optional [[7], []])⟩, (⟨1, none⟩ : MergeInput Nat)]).2
     = [[], [], [7]] := by decide
 
-/- Full statement still open (kept visible):
-   theorem C08_merge_stack (ins) (hcanon : every input is `encodeAs card rows` with a fitting card) :
-     read (mergeStacked ins).1 (mergeStacked ins).2 = stackSpec (ins.map MergeInput.read)
-   Proved part: the values. The stacked index (shifted rows-with-values, cumulated start offsets) is
-   compared with the real code on every stacked merge case of the correspondence run. -/
-/-- stacked merge, value part: the merged flat values are the concatenation of all rows of all
-inputs in order -/
-theorem C08_merge_stack_partial {V : Type} (cols : List (Card × Column V)) :
-    (mergeStacked (cols.map (fun c => (⟨c.2.length, some (encodeAs c.1 c.2)⟩ : MergeInput V)))).2
-      = (stackSpec (cols.map (·.2))).flatten := by
-  unfold mergeStacked stackSpec
-  have key : ∀ (l : List (Card × Column V)),
-      (l.map (fun c => (⟨c.2.length, some (encodeAs c.1 c.2)⟩ : MergeInput V))).flatMap (·.vals)
-        = ((l.map (·.2)).flatten).flatten := by
-    intro l
-    induction l with
-    | nil => rfl
-    | cons c cs ih =>
-      simp only [List.map_cons, List.flatMap_cons, List.flatten_cons, List.flatten_append, ih]
-      congr 1
-      cases c with
-      | mk card rows => cases card <;> rfl
-  split <;> exact key cols
+/-- stacked merge: for inputs in canonical form — each input column is `encodeAs card rows` for a
+cardinality that fits its rows, which is what the writer (`C08_writer_pipeline_partial`) and every
+earlier merge (`mergeShuffledAs_eq`, `mergeStacked_canon`) produce — the merged column is
+`encodeAs (max cardinality) (all rows)` and reads back as the concatenation of the inputs. -/
+theorem C08_merge_stack {V : Type} (cols : List (Card × Column V)) (hfit : ∀ c ∈ cols, c.1.fits c.2) :
+    read (mergeStacked (cols.map canonInput)).1 (mergeStacked (cols.map canonInput)).2
+      = stackSpec (cols.map (·.2)) :=
+  read_mergeStacked cols hfit
 
 example : read (mergeStacked [⟨2, some (encodeAs .full [[1], [2]])⟩,
       (⟨2, some (encodeAs .multivalued [[], [3, 4]])⟩ : MergeInput Nat)]).1
